@@ -38,11 +38,19 @@ def load_props(root):
 def theorem_names(root, pid):
     path = os.path.join(root, "lean", "ErrModel", "Props", pid + ".lean")
     names = []
+    ns = []
     if os.path.exists(path):
         for line in open(path):
+            m = re.match(r"\s*namespace\s+([A-Za-z0-9_.']+)", line)
+            if m:
+                ns.append(m.group(1)); continue
+            m = re.match(r"\s*end\s+([A-Za-z0-9_.']+)\s*$", line)
+            if m and ns and ns[-1] == m.group(1):
+                ns.pop(); continue
             m = re.match(r"\s*theorem\s+([A-Za-z0-9_.']+)", line)
             if m:
-                names.append(m.group(1))
+                full = ".".join(ns + [m.group(1)])
+                names.append(full[len("ErrModel."):] if full.startswith("ErrModel.") else full)
     return names
 
 def strip_comments(src):
@@ -237,6 +245,13 @@ def main(root, args):
         has_input = any(v[0] == "failing-input" for v in violations)
         if not has_input:
             violations.append(("obligation", {"what": "a Lean proof obligation or the audit no longer checks", "detail": ldetail}))
+    # C16: the harness's call table must cover exactly the extracted exported functions
+    if pid == "C16" and ext_detail and res is not None:
+        want = set((ext_detail.get("summary") or {}).get("depth", {}).get("exported_names") or [])
+        have = set((res.get("extra") or {}).get("c16_table_names") or [])
+        if want != have:
+            violations.append(("extracted-fact", {"what": "the harness call table and the extracted exported functions differ",
+                                                  "only_in_source": sorted(want - have), "only_in_harness": sorted(have - want)}))
     if ext_detail and ext_detail.get("violations"):
         for v in ext_detail["violations"]:
             violations.append(("extracted-fact", v))
